@@ -81,10 +81,13 @@ def run(ctx):
 
     # 1. design model, exhaustive
     if ctx.thorough:
-        cfg = _cfg(ctx, "MCMuxThorough.cfg", [("QBC1 = 1", "QBC1 = 2"), ("QB3 = 1", "QB3 = 2"), ("E = 1", "E = 2")])
+        # the full MCMux.cfg (~1.3*10^5 states) and a corner with roomier wire / egress queues
+        ctx.tlc_mc("net", "MCMux", "MCMux.cfg", workers=4, timeout=2400, required_actions=MC_ACTIONS)
+        cfg = _cfg(ctx, "MCMuxWide.cfg", [("QA2 = 2", "QA2 = 1"), ("W = 1", "W = 2"), ("E = 1", "E = 2")])
+        ctx.tlc_mc("net", "MCMux", cfg, workers=4, timeout=2400, required_actions=MC_ACTIONS)
     else:
         cfg = _cfg(ctx, "MCMuxQuick.cfg", [("QA2 = 2", "QA2 = 1")])
-    ctx.tlc_mc("net", "MCMux", cfg, workers=4, timeout=2400 if ctx.thorough else 900, required_actions=MC_ACTIONS)
+        ctx.tlc_mc("net", "MCMux", cfg, workers=4, timeout=900, required_actions=MC_ACTIONS)
     ctx.tlc_mc("net", "MCMux", "MCMuxLive.cfg", workers=2, required_actions=MC_ACTIONS)
 
     # 2. M3 on the real multiplexers
